@@ -10,7 +10,6 @@ import (
 	"fmt"
 	"math"
 	"math/big"
-	"strings"
 
 	"github.com/tuneinsight/lattigo/v6/ring"
 	"github.com/tuneinsight/lattigo/v6/utils/sampling"
@@ -41,15 +40,7 @@ func c17Centre(chain []uint64, limbs []uint64) (x *big.Int, ok bool) {
 }
 
 func c17Probes(c *Ctx) {
-	// a Go panic inside the real code must not abort the run: it becomes a failing probe
-	safe := func(name string, f func(*Ctx)) {
-		defer func() {
-			if r := recover(); r != nil {
-				c.Probe("no-panic", "in="+name, "C17/"+name+"/panic", strings.ReplaceAll(fmt.Sprint(r), "\n", " "))
-			}
-		}()
-		f(c)
-	}
+	safe := func(name string, f func(*Ctx)) { c17Safe(c, name, f) }
 	safe("views", c17ProbeViews)
 	safe("determinism", c17ProbeDeterminism)
 	safe("uniform", c17ProbeUniform)
